@@ -134,7 +134,7 @@ constant (`Fld.sem`), whatever its own offset -/
 theorem mul_sem (a b : Fld K) (hab : (a.size1 && b.size1) = false)
     (ha : 0 < a.arr.s0 ∧ 0 < a.arr.s1) (hb : 0 < b.arr.s0 ∧ 0 < b.arr.s1) (r c : Int) :
     (match a.mul b with | some p => p.emb r c | none => 0) = a.sem r c * b.sem r c := by
-  unfold Fld.mul
+  rw [Fld.mul_closed]
   simp only [hab, Bool.false_eq_true, if_false]
   rw [mul_emb]
   unfold Fld.sem
@@ -203,6 +203,26 @@ theorem mul_scalar_scalar_sem_partial (a b : Fld K) (hab : (a.size1 && b.size1) 
   have h3 : (Fld.mk (Arr.mk 1 1 fun _ _ => a.arr.get 0 0 * b.arr.get 0 0) a.o0 a.o1).size1 = true := rfl
   simp only [Fld.sem, hab.1, hab.2, h3, if_true]
 
+/-- **two one-element fields, the documented rule in full** (`Field.__mul__`: "if both operands are scalars, the result
+is 0 unless the operands share the same offset"): read as infinite constants (`Fld.sem`), the product is the constant
+`a·b` when the offsets are equal — exactly, in both components — and the empty field (0 everywhere) otherwise -/
+theorem mul_scalar_scalar_rule (a b : Fld K) (hab : (a.size1 && b.size1) = true) (r c : Int) :
+    (match a.mul b with | some p => p.sem r c | none => 0) =
+      if a.o0 = b.o0 ∧ a.o1 = b.o1 then a.sem r c * b.sem r c else 0 := by
+  rw [Fld.mul_scalar_scalar a b hab]
+  by_cases ho : a.o0 = b.o0 ∧ a.o1 = b.o1
+  · rw [if_pos ho, if_pos ho]
+    rw [Bool.and_eq_true] at hab
+    have h3 : (Fld.mk (Arr.mk 1 1 fun _ _ => a.arr.get 0 0 * b.arr.get 0 0) a.o0 a.o1).size1 = true := rfl
+    simp only [Fld.sem, hab.1, hab.2, h3, if_true]
+  · rw [if_neg ho, if_neg ho]
+/-- what keeps `mul_scalar_scalar_sem_partial` partial is not a missing proof: the literal reading ("a one-element field is
+an infinite constant", so the product of two of them is the constant `a·b` wherever they sit) is FALSE of the code for
+different offsets — witness: constants 3 and 5 one pixel apart multiply to the empty field, not to 15 -/
+example : ((⟨⟨1, 1, fun _ _ => (3 : Int)⟩, 2, 2⟩ : Fld Int).mul ⟨⟨1, 1, fun _ _ => 5⟩, 2, 3⟩).isNone = true ∧
+    (⟨⟨1, 1, fun _ _ => (3 : Int)⟩, 2, 2⟩ : Fld Int).sem 0 0 * (⟨⟨1, 1, fun _ _ => (5 : Int)⟩, 2, 3⟩ : Fld Int).sem 0 0 = 15 := by
+  decide
+
 end mul
 
 /-! ### position independence -/
@@ -215,7 +235,7 @@ multiply iff their offsets are *exactly* equal, at every distance from the origi
 violates this), and the product is empty before iff it is empty after -/
 theorem mul_translate (a b : Fld K) (d0 d1 : Int) :
     (a.translate d0 d1).mul (b.translate d0 d1) = (a.mul b).map fun p => p.translate d0 d1 := by
-  unfold Fld.mul
+  rw [Fld.mul_closed, Fld.mul_closed]
   have h1 : (a.translate d0 d1).size1 = a.size1 := rfl
   have h2 : (b.translate d0 d1).size1 = b.size1 := rfl
   have e0 : decide ((a.translate d0 d1).o0 = (b.translate d0 d1).o0) = decide (a.o0 = b.o0) := by
@@ -239,25 +259,20 @@ example : ((⟨⟨1, 1, fun _ _ => (3 : Int)⟩, 100000, 100000⟩ : Fld Int).mu
     ((⟨⟨1, 1, fun _ _ => (3 : Int)⟩, 100000, 100000⟩ : Fld Int).mul ⟨⟨1, 1, fun _ _ => 5⟩, 100000, 100000⟩).map
       (fun p => (p.extent, p.emb 100000 100000)) = some (⟨100000, 100000, 100000, 100000⟩, 15) := by decide
 
-/-- **the dispatch of `Field.__mul__` / `_mul_scalar`, as generated from the source** (`Gen.mulBothOne` from
-`self.size == 1 and other.size == 1`, `Gen.mulScalarSame` from `np.array_equal(self.offset, other.offset)`), is the pair of
-guards the hand model `Fld.mul` branches on: both operands one-element, and offsets equal **exactly** in both components —
-an edit of either test in the source changes the generated definition and breaks this theorem -/
-theorem mul_dispatch_spec (a b : Fld K) (ha : 0 < a.arr.s0 ∧ 0 < a.arr.s1) (hb : 0 < b.arr.s0 ∧ 0 < b.arr.s1) :
-    Gen.mulBothOne (a.arr.s0 * a.arr.s1) (b.arr.s0 * b.arr.s1) = (a.size1 && b.size1) ∧
-    Gen.mulScalarSame a.o0 a.o1 b.o0 b.o1 = (decide (a.o0 = b.o0) && decide (a.o1 = b.o1)) := by
-  have key : ∀ x y : Int, 0 < x → 0 < y → (x * y = 1 ↔ x = 1 ∧ y = 1) := by
-    intro x y hx hy
-    constructor
-    · intro h
-      exact ⟨Int.eq_one_of_mul_eq_one_right (Int.le_of_lt hx) h, Int.eq_one_of_mul_eq_one_left (Int.le_of_lt hy) h⟩
-    · rintro ⟨rfl, rfl⟩; rfl
-  refine ⟨?_, rfl⟩
-  simp only [Gen.mulBothOne, Fld.size1]
-  rw [Bool.eq_iff_iff]
-  simp only [Bool.and_eq_true, decide_eq_true_eq, key _ _ ha.1 ha.2, key _ _ hb.1 hb.2]
-example : Gen.mulBothOne 1 1 = true ∧ Gen.mulBothOne 1 6 = false ∧ Gen.mulScalarSame 100000 7 100000 7 = true ∧
-    Gen.mulScalarSame 100000 7 100001 7 = false := by decide
+/-- **the dispatch of `Field.__mul__` / `_mul_scalar`, as generated from the source and consumed by `Fld.mul`**
+(`Gen.mulBothOne` from `self.size == 1 and other.size == 1`, `Gen.mulScalarSame` from
+`np.array_equal(self.offset, other.offset)`): both operands one-element, and offsets equal **exactly** in both components
+**whatever the container types of the two offsets** (list, tuple, ndarray … enter the translation as the `_kind`
+parameters: `np.array_equal` ignores them, Python's `==` on sequences would not) — an edit of either test in the source
+changes the generated definition and breaks this theorem and `Fld.mul_closed` -/
+theorem mul_dispatch_spec (a b : Fld K) :
+    Gen.mulBothOne a.size b.size = (a.size1 && b.size1) ∧
+    ∀ ka kb : Int, Gen.mulScalarSame a.o0 a.o1 ka b.o0 b.o1 kb = (decide (a.o0 = b.o0) && decide (a.o1 = b.o1)) :=
+  ⟨Fld.mulBothOne_eq a b, fun _ _ => rfl⟩
+/-- `data.size` of a field of positive shape is the product of its dimensions -/
+example : (Ex.B.size, Ex.A.size, (⟨⟨1, 1, fun _ _ => (3 : Int)⟩, 7, -7⟩ : Fld Int).size) = (6, 4, 1) := by decide
+example : Gen.mulBothOne 1 1 = true ∧ Gen.mulBothOne 1 6 = false ∧ Gen.mulScalarSame 100000 7 0 100000 7 1 = true ∧
+    Gen.mulScalarSame 100000 7 0 100001 7 0 = false := by decide
 
 end translate
 
